@@ -10,7 +10,7 @@ use crate::world::{CloseKind, Cond, Opts, Outcome, Scenario, Step};
 use std::collections::BTreeMap;
 
 pub const PROGRAMS: &[&str] = &[
-    "txn", "auto2", "drop-in-txn", "fin-in-txn", "srv-error", "srv-kill", "copyout-srvfail", "copyin-srvfail", "copy-abort", "batch-drop", "exttxn", "srv-reset-idle", "parse-only-stay", "prep-then-bind-stay",
+    "txn", "auto2", "drop-in-txn", "fin-in-txn", "srv-error", "srv-kill", "copyout-srvfail", "copyin-srvfail", "copy-abort", "batch-drop", "exttxn", "srv-reset-idle", "parse-only-stay", "prep-then-bind-stay", "ext-copyin",
 ];
 
 pub fn program(c: usize, prog: &str, stay: bool) -> Script {
@@ -38,6 +38,23 @@ pub fn program(c: usize, prog: &str, stay: bool) -> Script {
         }
         "srv-kill" => {
             s = s.q(&format!("SELECT KILL! /*{}*/", t(0, 0))).q(&format!("SELECT 2 /*{}*/", t(1, 0))).terminate();
+        }
+        "ext-copyin" => {
+            let mut b = wire::parse("", &format!("COPY t FROM STDIN /*{}*/", t(0, 0)), &[]);
+            b.extend(wire::bind("", "", &[], &[], &[]));
+            b.extend(wire::execute("", 0));
+            b.extend(wire::sync());
+            let mut end = wire::copy_done();
+            end.extend(wire::sync());
+            s = s
+                .send(b, "P B E S (COPY)")
+                .wait(Cond::CodeOrClosed(b'G', 1))
+                .send(wire::copy_data(format!("row1 {}\n", t(0, 1)).as_bytes()), "d")
+                .send_z(end, "c S")
+                .wait(Cond::TimeMs(0));
+            if !stay {
+                s = s.terminate();
+            }
         }
         "copyout-srvfail" => {
             s = s
